@@ -133,6 +133,13 @@ def worker_main(argv):
     import faulthandler
 
     faulthandler.enable()
+    try:  # die with the driver (no orphan workers spinning in a hang)
+        import ctypes
+        import signal
+
+        ctypes.CDLL("libc.so.6", use_errno=True).prctl(1, signal.SIGKILL)
+    except Exception:
+        pass
     mod = load_prop(prop)
     ctx = Ctx(prop, tier, seed, shard, nshards)
     ctx.markfile = out + ".mark"
